@@ -163,6 +163,7 @@ struct Swarm {
     colliding_names: bool,
     stdgates: bool,
     misc: bool,
+    big: bool,
 }
 
 struct LogicalFile {
@@ -1010,7 +1011,10 @@ impl<'a> G<'a> {
             w.lexeme("version", self.r.pick_str(&["OPENQASM 3.0", "OPENQASM 3", "OPENQASM 3.1"]));
             w.push(";\n");
         }
-        let n_stmts = if is_main { 2 + self.r.below(10) } else { 1 + self.r.below(7) };
+        let mut n_stmts = if is_main { 2 + self.r.below(10) } else { 1 + self.r.below(7) };
+        if self.sw.big {
+            n_stmts *= 3;
+        }
         let candidates: Vec<usize> = self.files[file_ix].includes.clone();
         for _ in 0..n_stmts {
             let start = w.s.len();
@@ -1138,6 +1142,7 @@ fn draw_swarm(r: &mut Rng, profile: Profile) -> Swarm {
         colliding_names: r.chance(1, 3),
         stdgates: r.chance(1, 2),
         misc: r.chance(1, 2),
+        big: r.chance(1, 10),
     }
 }
 
@@ -1405,7 +1410,20 @@ pub fn gen_pristine(r: &mut Rng, profile: Profile, root: &str, cycle: bool) -> G
             _ => (cwd.clone(), "./main.qasm".into()),
         };
         let path = format!("{}/main.qasm", store_dir);
-        world.put_file(&path, main.s.clone().into_bytes());
+        let mut main_text = main.s.clone();
+        let mut main_meta = main_meta;
+        if cycle && r.chance(1, 3) {
+            // the main file includes itself (under the spelling it was opened with, or another)
+            if !main_text.ends_with('\n') {
+                main_text.push('\n');
+            }
+            let at = main_text.len();
+            let value = r.pick(&[spelled.clone(), "main.qasm".to_string(), path.clone(), "./main.qasm".to_string()]).clone();
+            main_text.push_str(&format!("include \"{}\";\n", value));
+            main_meta.includes.push((at, Some(value)));
+            main_meta.stmt_starts.push(at);
+        }
+        world.put_file(&path, main_text.into_bytes());
         world.meta.insert(path.clone(), main_meta);
         lexemes.insert(path, (main.lexemes.clone(), main.exp_tears.clone()));
         world.entry = if world.list.is_none() && r.chance(1, 2) {
@@ -1651,6 +1669,16 @@ pub fn single_faults(r: &mut Rng, w: &World, history: &[simfs::Call], per_call_c
         let mut here: Vec<Fault> = vec![];
         let before_main = main_read_seq.is_some_and(|m| at <= m);
         match (&c.op, &c.out) {
+            (Op::Env, Out::Env(cur)) => {
+                // the environment changes just before this lookup
+                let other = format!("{}/other", w.cwd.trim_end_matches("/proj"));
+                here.push(Fault::EnvAt { at, value: None });
+                here.push(Fault::EnvAt { at, value: Some(other.clone()) });
+                if let Some(c) = cur {
+                    let rev: Vec<&str> = c.split(':').rev().collect();
+                    here.push(Fault::EnvAt { at, value: Some(rev.join(":")) });
+                }
+            }
             (Op::IsFile, Out::Bool(true)) if before_main => {
                 here.push(Fault::ProbeFalseAt { at });
             }
